@@ -997,6 +997,21 @@ class Env:
         zs = z3.ZeroExt(64, z(secs)); zn = z3.ZeroExt(96, z(nanos))
         return s.ret(st, simp(zs * z3.BitVecVal(1000000000, 128) + zn))
 
+    def _dur_div(s, M, st, a, per_sec, sub_div, bits):
+        d = s.tgt(M, st, a[0]); secs, nanos = d.f[0], d.f[1]
+        if isinstance(secs, I) and isinstance(nanos, I): return s.ret(st, I(secs.v * per_sec + nanos.v // sub_div, bits))
+        zs = z3.ZeroExt(bits - 64, z(secs)); zn = z3.ZeroExt(bits - 32, z3.UDiv(z(nanos), z3.BitVecVal(sub_div, 32)))
+        return s.ret(st, simp(zs * z3.BitVecVal(per_sec, bits) + zn))
+    def p_Duration__as_millis(s, M, st, th, ci, a): return s._dur_div(M, st, a, 1000, 1000000, 128)
+    def p_Duration__as_micros(s, M, st, th, ci, a): return s._dur_div(M, st, a, 1000000, 1000, 128)
+    def p_Duration__as_secs(s, M, st, th, ci, a): return s.ret(st, s.tgt(M, st, a[0]).f[0])
+    def p_Duration__subsec_nanos(s, M, st, th, ci, a): return s.ret(st, s.tgt(M, st, a[0]).f[1])
+    def _dur_sub(s, M, st, a, div):
+        n = s.tgt(M, st, a[0]).f[1]
+        return s.ret(st, I(n.v // div, 32) if isinstance(n, I) else simp(z3.UDiv(z(n), z3.BitVecVal(div, 32))))
+    def p_Duration__subsec_millis(s, M, st, th, ci, a): return s._dur_sub(M, st, a, 1000000)
+    def p_Duration__subsec_micros(s, M, st, th, ci, a): return s._dur_sub(M, st, a, 1000)
+
     def p_Duration__is_zero(s, M, st, th, ci, a):
         d = s.tgt(M, st, a[0]); return s.ret(st, b_and(binop('Eq', d.f[0], I(0)), binop('Eq', d.f[1], I(0, 32))))
 
